@@ -42,6 +42,17 @@ def use_repo():
     if sys.path[0] != p:
         sys.path.insert(0, p)
     os.environ["DELB_VERIF"] = "1"
+    sys.unraisablehook = _unraisable
+
+
+UNRAISABLE: list[str] = []
+
+
+def _unraisable(u):
+    """Exceptions swallowed by the interpreter (e.g. inside the gc callback) are recorded,
+    not printed: they matter for C04 and are reported there."""
+    if len(UNRAISABLE) < 1000:
+        UNRAISABLE.append(f"{type(u.exc_value).__name__}: {u.exc_value} in {getattr(u.object, '__qualname__', u.object)!r}")
 
 
 class ToolFailure(Exception):
@@ -210,7 +221,9 @@ def run_driver(requests: list[dict], timeout=3000) -> list[dict]:
         raise ToolFailure(
             f"lean driver exited with {r.returncode}: {r.stderr.decode(errors='replace')[-2000:]}"
         )
-    lines = r.stdout.decode("utf-8").splitlines()
+    lines = r.stdout.decode("utf-8").split("\n")
+    if lines and lines[-1] == "":
+        lines.pop()
     if len(lines) != len(requests):
         raise ToolFailure(f"driver answered {len(lines)} lines for {len(requests)} requests")
     return [json.loads(l) for l in lines]
